@@ -57,6 +57,16 @@ type Spec struct {
 	// Classify, when set, is consulted first: it may give a call its own token
 	// (e.g. depending on the arguments written).
 	Classify func(info *types.Info, call *ast.CallExpr, f *types.Func) (string, bool)
+	// ClassifyCtx is Classify with the stack of inlined helper calls through
+	// which the call was reached (outermost first), so that a rule can tell two
+	// expansions of the same helper apart.
+	ClassifyCtx func(info *types.Info, call *ast.CallExpr, f *types.Func, stack []*ast.CallExpr) (string, bool)
+	// StrictLits makes the extraction undecided when a function literal (also
+	// under defer/go) touches the stream: its tokens would otherwise be lost.
+	StrictLits bool
+	// ImplicitDefault renders the empty alternative `d:` of a switch that has no
+	// default clause, so that "no case matched" is a visible path (Language).
+	ImplicitDefault bool
 	// FieldBufLen gives the constant length of scratch-buffer fields
 	// (verified separately by the rule that uses it).
 	FieldBufLen map[string]int64
@@ -86,6 +96,8 @@ type Extractor struct {
 	tokOf      map[*ast.CallExpr]*node    // primitive call -> its token
 	inlineRes  map[*ast.CallExpr][]string // inlined helper call -> bindings of its first result
 	inlineVals map[*ast.CallExpr]*inlineFrame
+	stack      []*ast.CallExpr                     // inlined helper calls being expanded (outermost first)
+	synthRet   map[*ast.ReturnStmt]*ast.AssignStmt // returns made from `r = e; break L` of a one-pass block
 }
 
 // New creates an extractor.
@@ -279,6 +291,7 @@ func (e *Extractor) CaseTerm(info *types.Info, sw *ast.SwitchStmt, val int64, us
 func (e *Extractor) block(info *types.Info, stmts []ast.Stmt) *node {
 	out := seq()
 	e.term = false
+	stmts = e.flagExits(info, stmts)
 	for _, s := range stmts {
 		if n := e.stmt(info, s); n != nil {
 			out.kids = append(out.kids, n)
@@ -379,6 +392,9 @@ func (e *Extractor) exprTokens(info *types.Info, x ast.Node) []*node {
 		ast.Inspect(n, func(m ast.Node) bool {
 			switch c := m.(type) {
 			case *ast.FuncLit:
+				if e.S.StrictLits {
+					e.strictLit(info, c)
+				}
 				return false
 			case *ast.CallExpr:
 				// arguments first
@@ -419,10 +435,15 @@ func (e *Extractor) callToken(info *types.Info, c *ast.CallExpr) *node {
 			return &node{kind: "tok", text: tok}
 		}
 	}
+	if e.S.ClassifyCtx != nil {
+		if tok, ok := e.S.ClassifyCtx(info, c, f, e.stack); ok {
+			return &node{kind: "tok", text: tok}
+		}
+	}
 	if tok, ok := e.S.Prims[name]; ok {
 		if tok == "Bytes" && len(c.Args) == 1 {
 			// a variable-length read with a constant length is a fixed-width read
-			if k, ok := e.intValue(info, c.Args[0]); ok {
+			if k, ok := e.constValue(info, c.Args[0]); ok {
 				tok = fmt.Sprintf("Fix%d", k)
 			}
 		}
@@ -487,7 +508,9 @@ func (e *Extractor) callToken(info *types.Info, c *ast.CallExpr) *node {
 		e.frames = append(e.frames, fr)
 		e.zeroNamedResults(fn)
 		saveTerm := e.term
+		e.stack = append(e.stack, c)
 		n := e.block(fn.Pkg.TypesInfo, earlyReturnToElse(fn.Decl.Body.List))
+		e.stack = e.stack[:len(e.stack)-1]
 		e.term = saveTerm
 		e.frames = e.frames[:len(e.frames)-1]
 		e.finishFrame(fr)
@@ -528,6 +551,10 @@ func (e *Extractor) bindParams(info *types.Info, c *ast.CallExpr, fn *core.Fn) {
 				e.consts[po] = k
 				continue
 			}
+			if k, ok := e.knownArg(info, arg); ok {
+				e.consts[po] = k // a variable whose value is assumed (Assume, CaseTerm, ByFirstByte)
+				continue
+			}
 			if ref, ok := e.refOfMark(info, arg, false); ok {
 				ref = strings.TrimSuffix(strings.TrimPrefix(ref, "["), "]")
 				e.binds[po] = strings.Split(ref, ",")
@@ -536,7 +563,18 @@ func (e *Extractor) bindParams(info *types.Info, c *ast.CallExpr, fn *core.Fn) {
 	}
 }
 
-// intValue: a compile-time constant, or a helper parameter bound to one.
+// constValue: a compile-time constant, or a helper parameter bound to one (not
+// a value that is merely known on the path being extracted).
+func (e *Extractor) constValue(info *types.Info, x ast.Expr) (int64, bool) {
+	saved := e.known
+	e.known = nil
+	k, ok := e.intValue(info, x)
+	e.known = saved
+	return k, ok
+}
+
+// intValue: a compile-time constant, a helper parameter bound to one, or a
+// variable whose value is known on this path.
 func (e *Extractor) intValue(info *types.Info, x ast.Expr) (int64, bool) {
 	if k, ok := core.IntConst(info, x); ok {
 		return k, true
@@ -549,6 +587,9 @@ func (e *Extractor) intValue(info *types.Info, x ast.Expr) (int64, bool) {
 	}
 	if id, ok := x.(*ast.Ident); ok {
 		if k, ok := e.consts[info.Uses[id]]; ok {
+			return k, true
+		}
+		if k, ok := e.known[info.Uses[id]]; ok {
 			return k, true
 		}
 	}
@@ -1094,7 +1135,30 @@ func (e *Extractor) stmt1(info *types.Info, s ast.Stmt) *node {
 		return nil
 	case *ast.EmptyStmt:
 		return nil
-	case *ast.GoStmt, *ast.DeferStmt, *ast.SendStmt, *ast.LabeledStmt, *ast.SelectStmt, *ast.TypeSwitchStmt:
+	case *ast.LabeledStmt:
+		if stmts, synth, ok := onePass(x); ok {
+			if e.synthRet == nil {
+				e.synthRet = map[*ast.ReturnStmt]*ast.AssignStmt{}
+			}
+			for k, v := range synth {
+				e.synthRet[k] = v
+			}
+			// `L: for { ...; break L }` runs its body once, `break L` leaves it: the
+			// same thing as the body of an inlined helper with `return`
+			fr := &inlineFrame{}
+			e.frames = append(e.frames, fr)
+			saveTerm := e.term
+			n := e.block(info, earlyReturnToElse(stmts))
+			e.term = saveTerm
+			e.frames = e.frames[:len(e.frames)-1]
+			stripRets(n)
+			return n
+		}
+		if len(e.exprTokens(info, x)) > 0 {
+			e.undec("%s: stream consumed inside a %T", e.C.Pos(x.Pos()), x)
+		}
+		return nil
+	case *ast.GoStmt, *ast.DeferStmt, *ast.SendStmt, *ast.SelectStmt, *ast.TypeSwitchStmt:
 		if len(e.exprTokens(info, x)) > 0 {
 			e.undec("%s: stream consumed inside a %T", e.C.Pos(x.Pos()), x)
 		}
@@ -1105,6 +1169,9 @@ func (e *Extractor) stmt1(info *types.Info, s ast.Stmt) *node {
 		var toks []*node
 		for _, r := range x.Results {
 			toks = append(toks, e.exprTokens(info, r)...)
+		}
+		if as := e.synthRet[x]; as != nil {
+			e.updateKnown(info, as)
 		}
 		e.recordReturn(info, x)
 		return seq(append(toks, &node{kind: "ret"})...)
@@ -1196,13 +1263,33 @@ func (e *Extractor) stmt1(info *types.Info, s ast.Stmt) *node {
 		out.kids = append(out.kids, &node{kind: "alt", text: key, kids: []*node{thenN, elseN}})
 		return out
 	case *ast.ForStmt:
+		x = normLoop(info, x) // while-form and break-form of a counting loop
 		out := seq()
 		if x.Init != nil {
 			out.kids = append(out.kids, e.stmt(info, x.Init))
 		}
+		// the trip count of a count-down loop is read before the loop's own
+		// assignments invalidate what is known about the counter
+		var downK int64 = -1
+		if x.Cond != nil && x.Post != nil {
+			if v, ok := countDown(info, x); ok {
+				if k, isK := e.intValue(info, v); isK {
+					downK = k
+				}
+			}
+		}
 		e.killAssigned(info, x)
 		body := e.block(info, x.Body.List)
 		e.killAssigned(info, x)
+		if downK >= 0 && downK <= 8 {
+			for j := int64(1); j < downK; j++ {
+				out.kids = append(out.kids, e.block(info, x.Body.List))
+			}
+			if downK > 0 {
+				out.kids = append(out.kids, body)
+			}
+			return out
+		}
 		condToks := e.exprTokens(info, x.Cond)
 		if len(condToks) > 0 {
 			e.undec("%s: stream consumed inside a loop condition", e.C.Pos(x.Pos()))
@@ -1224,6 +1311,13 @@ func (e *Extractor) stmt1(info *types.Info, s ast.Stmt) *node {
 					return out
 				}
 			}
+			// count-down that stops early or late: `v > 1`, `v >= 0` run v-1, v+1 times
+			if v, off, ok := countDownOffset(info, x); ok {
+				if ref, ok := e.refOf(info, v); ok {
+					out.kids = append(out.kids, &node{kind: "loop", text: fmt.Sprintf("%s%+d", ref, off), kids: []*node{body}})
+					return out
+				}
+			}
 			if be, ok := ast.Unparen(x.Cond).(*ast.BinaryExpr); ok && be.Op == token.LSS {
 				if _, isInc := x.Post.(*ast.IncDecStmt); isInc {
 					// `for i := 0; i < K; i++` with a small constant K is K copies of the body
@@ -1242,6 +1336,16 @@ func (e *Extractor) stmt1(info *types.Info, s ast.Stmt) *node {
 						out.kids = append(out.kids, &node{kind: "loop", text: ref, kids: []*node{body}})
 						return out
 					}
+				}
+			}
+			// the other spellings of counting up to a bound: `i != n`, `n > i`, `n != i`, `i += 1`
+			if bound, plusOne, ok := upCountBound(info, x); ok {
+				if ref, ok := e.refOf(info, bound); ok {
+					if plusOne {
+						ref += "+1" // `i <= n`: runs once more than the count read
+					}
+					out.kids = append(out.kids, &node{kind: "loop", text: ref, kids: []*node{body}})
+					return out
 				}
 			}
 		}
@@ -1352,6 +1456,17 @@ func (e *Extractor) stmt1(info *types.Info, s ast.Stmt) *node {
 		}
 		if allEmpty {
 			return out
+		}
+		if e.S.ImplicitDefault {
+			hasDefault := false
+			for _, cl := range clauses {
+				if cl.(*ast.CaseClause).List == nil {
+					hasDefault = true
+				}
+			}
+			if !hasDefault {
+				ents = append(ents, entry{"d", 1 << 62, seq()})
+			}
 		}
 		sort.SliceStable(ents, func(i, j int) bool { return ents[i].order < ents[j].order })
 		for _, en := range ents {
